@@ -347,6 +347,19 @@ def replay_linear(chk, rs, c, variants):
             if np.max(np.abs(p3 - (a * p1 + b * p2))) > TOL[prec] * sc_p:
                 _viol(chk, rs, c, "superposition", "conc of (a*q1+b*q2, a*c1+b*c2) differs from the combination by %.3e relative" % (np.max(np.abs(p3 - (a * p1 + b * p2))) / sc_p), a=a, b=b, **extra)
                 return
+        # a source whose net emission cancels to rounding (the map minus its displaced copy): the fields are the difference of the
+        # fields of the two maps - nothing may be normalised by the net source
+        if not c["fp"]:
+            qr = np.roll(q1, 1, axis=1)
+            _, pr_, fr_ = rs.solve3(qr, kw, srf_bg_conc=0.0)
+            _, pd_, fd_ = rs.solve3(q1 - qr, kw, srf_bg_conc=c1)
+            sc_f = max(float(np.max(np.abs(f1))), float(np.max(np.abs(fr_))), 1e-300)
+            sc_p = max(float(np.max(np.abs(p1))), float(np.max(np.abs(pr_))), 1e-300)
+            dfz = float(np.max(np.abs(fd_ - (f1 - fr_)))) / sc_f
+            dpz = float(np.max(np.abs(pd_ - (p1 - pr_)))) / sc_p
+            if dfz > TOL[prec] or dpz > TOL[prec]:
+                _viol(chk, rs, c, "superposition", "a map minus its displaced copy (net emission %.3g): the fields differ from the difference of the two maps' fields by %.3e (flux) / %.3e (conc) relative" % (float(np.sum(q1 - qr)), dfz, dpz), **extra)
+                return
         # homogeneity over many decades (the same emission map in other units): out(s*q, s*c) = s*out(q, c)
         if not c["fp"]:
             for sfac in (1e-7, 3e5):
@@ -658,6 +671,18 @@ def replay_mirror(chk, rs, c, variants):
             _, pm, fm = rs.solve3(q[::-1, :].copy(), kw, profiles=rs.flip_profiles(kw["profiles"], sv=-1.0), meas_pt=mp)
             if not (_cmp(chk, rs, c, "mirror_centre_y", "flux", fm, f0[:, ::-1, :], prec, "problem reflected about the domain centre in y (halo %s)" % kw["halo"], **extra)
                     and _cmp(chk, rs, c, "mirror_centre_y", "conc", pm, p0[:, ::-1, :], prec, "problem reflected about the domain centre in y (halo %s)" % kw["halo"], **extra)):
+                return
+        # the axis swap with a halo (the pad width of each axis is counted in ITS cells): source transposed, u <-> v, Kx <-> Ky,
+        # domain, modes and measurement point swapped - the fields are the transposes, whatever the halo
+        if c["halo"] != 0 and not os.environ.get("VERIF_NOMINAL"):
+            kwt = dict(kw)
+            kwt["profiles"] = rs.flip_profiles(kw["profiles"], swap=True)
+            kwt["domain"] = (kw["domain"][1], kw["domain"][0])
+            kwt["modes"] = (kw["modes"][1], kw["modes"][0])
+            kwt["meas_pt"] = (kw["meas_pt"][1], kw["meas_pt"][0])
+            _, pt, ft = rs.solve3(q.T, kwt)
+            if not (_cmp(chk, rs, c, "transpose", "flux", ft, np.transpose(f0, (0, 2, 1)), prec, "axes exchanged with halo %s (source transposed, u<->v, Kx<->Ky, domain, modes and measurement point swapped)" % kw["halo"], **extra)
+                    and _cmp(chk, rs, c, "transpose", "conc", pt, np.transpose(p0, (0, 2, 1)), prec, "axes exchanged with halo %s" % kw["halo"], **extra)):
                 return
 
 
